@@ -420,6 +420,69 @@ def late_reply_case():
         link.rig.stop()
 
 
+def duplicate_reply_case():
+    """One application thread makes two requests one after the other.  The first is answered twice (the duplicate arrives before the
+    requester has taken its waiter away: forced by holding the requester at _remove_queue), the second once.  Each call returns the reply
+    with the system bytes of its own request: nothing that was left over from the first transaction answers the second."""
+    link = Link()
+    link.rig.settings.timeouts.t3 = 5
+    link.up()
+    proto = link.proto
+    fed = threading.Event()
+    arrived = threading.Event()
+    original = proto._remove_queue
+    state = {"first": True}
+
+    def held(system_id):
+        if state["first"]:
+            state["first"] = False
+            arrived.set()
+            fed.wait(5)          # the duplicate is put into the waiter of the first request before the waiter is removed
+        return original(system_id)
+
+    proto._remove_queue = held
+    results = []
+
+    def caller():
+        for _ in range(2):
+            r = proto.send_and_waitfor_response(link.sf.function(1, 1)())
+            results.append(None if r is None else (r.header.system, int(link.sf.decode(r).get()[0])))
+
+    stop = threading.Event()
+    asked = []
+
+    def peer():
+        seen = 0
+        while not stop.is_set():
+            frames = protorig_split(link.rig.conn.sent)
+            for b in frames[seen:]:
+                if b.header.s_type.value == 0 and b.header.require_response and (b.header.stream, b.header.function) == (1, 1):
+                    asked.append(b.header.system)
+                    if len(asked) == 1:
+                        link.rig.conn.feed(link.reply_frame(b.header.system, 8100))
+                        arrived.wait(5)
+                        link.rig.conn.feed(link.reply_frame(b.header.system, 8101))     # the duplicate
+                        link.rig.settle()
+                        fed.set()
+                    else:
+                        link.rig.conn.feed(link.reply_frame(b.header.system, 8200))
+            seen = len(frames)
+            time.sleep(0.002)
+
+    th, pt = threading.Thread(target=caller, daemon=True), threading.Thread(target=peer, daemon=True)
+    pt.start()
+    th.start()
+    try:
+        th.join(15)
+        link.rig.settle()
+        return {"returned": not th.is_alive(), "requests": list(asked), "results": list(results),
+                "expected": [(asked[0], 8100), (asked[1], 8200)] if len(asked) == 2 else None, "handed_to_the_application": list(link.app)}
+    finally:
+        stop.set()
+        fed.set()
+        link.rig.stop()
+
+
 def queued_at_link_loss_case():
     """Two messages arrive; the handler of the first is still running (the second is queued behind it) when the peer closes.  Then the
     peer connects again and sends a third.  Every one of them was received completely while the session was SELECTED."""
@@ -707,6 +770,11 @@ def run(tier, replay=None):
             if not lr.get("request_sent") or lr["handed_over"] != lr["expected"] or lr["callbacks_started_while_the_first_was_running"] or lr["threads"] != ["dispatcher"]:
                 report.violation({"kind": "counterexample", "what": "a reply whose requester gave up while the receiver thread was handing it over was not handed to the application after the messages "
                                   "that arrived before it, by the dispatcher thread, one callback at a time", **lr}, True, tag="latereply")
+            dup = duplicate_reply_case()
+            cov["first_request_answered_twice"] = dup
+            if not dup["returned"] or dup["expected"] is None or [tuple(r) if r else r for r in dup["results"]] != dup["expected"]:
+                report.violation({"kind": "counterexample", "what": "two consecutive requests of one thread, the first answered twice: a call did not return the reply that carries the system bytes "
+                                  "of its own request", **dup}, True, tag="duplicate")
             ql = queued_at_link_loss_case()
             cov["queued_at_link_loss"] = ql
             known = {e["id"]: e for e in common.known_findings("C06") if e.get("status") == "open"}
